@@ -308,6 +308,11 @@ def _sequence_case(kind, mx, bw, ops, deltas):
         target = out.section() if kind in ("section", "plainsection") else out
         if kind == "plainsection":          # a section of an output without ANSI support behaves like that output
             kind = "plain"
+        if kind == "mixedio":               # the bar is handed an I/O object: it draws on the ERROR output, and that one is plain here while the standard output is decorated
+            from clikit.api.io import IO, Input
+            from clikit.io.input_stream.string_input_stream import StringInputStream
+            target = IO(Input(StringInputStream("")), Output(BufferedOutputStream(), AnsiFormatter(forced=True)), out)
+            kind = "plain"
         if kind == "quiet":
             out.set_quiet(True)
         bar = ProgressBar(target, mx, MIN_INTERVAL)
@@ -598,7 +603,7 @@ def conditions(tier):
         {"name": "smt_set_progress", "engine": "smt", "fn": smt_set_progress, "timeout": 900, "replay": _replay_smt, "bounds": "all |argument| <= 4095, 0 <= step <= max <= 4095 (max 0 = unknown), all finite clock readings last <= now <= 1e6, minimum interval in [0,10] s and maximum interval in [0,100] s independent of each other"},
     ]
     # (bar widths 1 and 2: more frames than the bar is wide are written within the bound)
-    configs = [("ansi", 10, 10), ("ansi", 3, 10), ("ansi", 0, 10), ("plain", 10, 10), ("plain", 0, 10), ("section", 10, 10), ("quiet", 10, 10), ("plain", 3, 1), ("plain", 10, 2), ("ansi", 3, 2), ("plainsection", 3, 10)]
+    configs = [("ansi", 10, 10), ("ansi", 3, 10), ("ansi", 0, 10), ("plain", 10, 10), ("plain", 0, 10), ("section", 10, 10), ("quiet", 10, 10), ("plain", 3, 1), ("plain", 10, 2), ("ansi", 3, 2), ("plainsection", 3, 10), ("mixedio", 3, 10)]
     if not quick:
         configs += [("ansi", 1, 1), ("ansi", 50, 28), ("section", 3, 10), ("section", 0, 10), ("section", 3, 1)]
     for kind, mx, bw in configs:
